@@ -1,7 +1,7 @@
 """C09 Garbage collection never changes what a program computes: forced collection schedules vs a run without collection."""
 import hashlib, os, re, shutil
 
-from .. import aldor
+from .. import aldor, findings
 from .. import progcheck as PC
 from .. import run as R
 from ..check import Fail, result, derive_seed, hyp_run
@@ -16,17 +16,23 @@ RULE = ("case = (allocation-heavy generated program: long lists, arrays, records
         "sweep {1,2,3,5,8,13,21,34,55,89,144,233,377,610,987}; interpreter: k in [331,1000] over the whole run (its own compilation allocates "
         "~3e5 blocks first). Freed storage is washed with 0xDD by the hook. Oracle: '@ ' lines and exit class equal those of the same route with "
         "the collector never running (hook mode 'never' / -Wno-gc); no storage fault. Non-trivial = >= 3 forced collections happened (hook "
-        "report on fd 3) and the program printed >= 3 lines after allocating; distinct = (program, route, k, j).")
+        "report on fd 3) and the program printed >= 3 lines after allocating; distinct = (program, route, k, j). Scale family: one live chain "
+        "of n cells (List cons cells, records linked through their last field, records linked through their first field; n up to 300000, the "
+        "first-field shape up to 20000 because of C09-K42) with heap churn beside it, a few collections, sum of the chain printed; expected "
+        "output in closed form, with and without collection. Every collecting run has an open-file limit of 40.")
 ASSUMPTIONS = ["schedules are of the form 'every k-th allocation from offset j' (hook ALDOR_VERIF_GC), not arbitrary subsets",
                "conservative retention can only keep more, so no expected value depends on what is collected"]
 KS = [1, 2, 3, 5, 8, 13, 21, 34, 55, 89, 144, 233, 377, 610, 987]
 
 
-def run_with_fd3(argv, cwd, env, cpu):
+NOFILE = 40     # open-file limit of every run that collects: a collector that keeps a descriptor per collection runs out within 40 collections
+
+
+def run_with_fd3(argv, cwd, env, cpu, nofile=None):
     log = os.path.join(cwd, "gc.log")
     if os.path.exists(log):
         os.unlink(log)
-    r = R.run(["sh", "-c", 'exec "$@" 3>gc.log', "sh"] + argv, cwd=cwd, env=env, cpu=cpu)
+    r = R.run(["sh", "-c", 'exec "$@" 3>gc.log', "sh"] + argv, cwd=cwd, env=env, cpu=cpu, nofile=nofile)
     forced = allocs = 0
     try:
         m = re.search(r"VERIF-GC forced=(\d+) allocs=(\d+)", open(log).read())
@@ -52,11 +58,11 @@ def check(tc, src, route, k, j, ev, h):
                 ev.classes["build_failed"] += 1
                 return None, False
             r0, _, _ = run_with_fd3([exe], wd, {"ALDOR_VERIF_GC": "never"}, 60)
-            r1, forced, allocs = run_with_fd3([exe], wd, {"ALDOR_VERIF_GC": sched}, 600)
+            r1, forced, allocs = run_with_fd3([exe], wd, {"ALDOR_VERIF_GC": sched}, 600, nofile=NOFILE)
         else:
             argv = aldor.aldor_cmd(tc, "aldor", ["-Q1", "-Ginterp"], ["p.as"])
             r0, _, _ = run_with_fd3(aldor.aldor_cmd(tc, "aldor", ["-Q1", "-Wno-gc", "-Ginterp"], ["p.as"]), wd, {}, 60)
-            r1, forced, allocs = run_with_fd3(argv, wd, {"ALDOR_VERIF_GC": sched}, 600)
+            r1, forced, allocs = run_with_fd3(argv, wd, {"ALDOR_VERIF_GC": sched}, 600, nofile=NOFILE)
         if r0.cpu_hit or aldor.has_error(r0.text()) or (route == "interp" and aldor.has_fault(r0)):
             ev.classes["reference_unusable"] += 1
             return None, False
@@ -75,6 +81,84 @@ def check(tc, src, route, k, j, ev, h):
                 route, sched, forced, allocs, c1, c0, i, b, a, (err[-150:] + r1.text()[-150:]).replace("\n", " | "))
             return Fail({"kind": "gc-changes-behaviour", "route": route, "what": what}, {"src": src, "route": route, "k": k, "j": j}), nt
         return None, nt
+
+
+# ---- scale family: one long live chain, heap churn beside it, a few collections; expected output in closed form
+K42_KNOWN = any(f["id"] == "C09-K42-marker-recursion" for f in findings.known(ID))
+SCALE_HDR = """#include "aldor"
+#include "aldorio"
+import from MachineInteger, Integer, List MachineInteger, String, TextWriter, Character;
+"""
+
+
+def scale_source(shape, n, m):
+    churn = "\ts: MachineInteger := 0;\n\tfor j: MachineInteger in 1..%d repeat { t: List MachineInteger := [j, j + 1, j + 2]; s := s + first t; }\n" % m
+    if shape == "list":        # cons cells: the link is the last word of each cell
+        body = ("\tl: List MachineInteger := empty;\n\tfor i: MachineInteger in 1..%d repeat l := cons(i, l);\n" % n + churn +
+                "\ttot: Integer := 0;\n\tfor x in l repeat tot := tot + x::Integer;\n")
+        pre = ""
+    else:
+        fields = "v: MachineInteger, nx: Pointer" if shape == "rec-last" else "nx: Pointer, v: MachineInteger"
+        mk = "[i, p]" if shape == "rec-last" else "[p, i]"
+        pre = "Nd ==> Record(%s);\nimport from Nd;\n" % fields
+        body = ("\tp: Pointer := nil;\n\tfor i: MachineInteger in 1..%d repeat { r: Nd := %s; p := r pretend Pointer; }\n" % (n, mk) + churn +
+                "\ttot: Integer := 0;\n\tq: Pointer := p;\n\twhile not nil? q repeat { r: Nd := q pretend Nd; tot := tot + (r.v)::Integer; q := r.nx; }\n")
+    src = SCALE_HDR + pre + "main(): () == {\n" + body + "\tstdout << \"@ \" << tot << \" \" << s << newline;\n}\nmain();\n"
+    return src, ["@ %d %d" % (n * (n + 1) // 2, m * (m + 1) // 2)]
+
+
+def check_scale(tc, shape, n, m, route, k, ev):
+    src, want = scale_source(shape, n, m)
+    key = "scale|%s|%d|%d|%s|%d" % (shape, n, m, route, k)
+    case = {"scale": shape, "n": n, "m": m, "route": route, "k": k}
+    with R.WorkDir("c09s-" + hashlib.sha256(key.encode()).hexdigest()[:12]) as wd:
+        PC.write_prog(wd, src)
+        sched = "%d:%d" % (k, 7 % k)
+        if route == "c":
+            fr, exe = aldor.build_exe(tc, wd, "p.as", ["-Q1"])
+            if fr is not None:
+                return Fail({"kind": "build-failed", "route": route, "shape": shape, "what": "scale program does not build: %s" % fr.text()[-200:]}, case), False
+            r0, _, _ = run_with_fd3([exe], wd, {"ALDOR_VERIF_GC": "never"}, 120)
+            r1, forced, allocs = run_with_fd3([exe], wd, {"ALDOR_VERIF_GC": sched}, 600, nofile=NOFILE)
+        else:
+            r0, _, _ = run_with_fd3(aldor.aldor_cmd(tc, "aldor", ["-Q1", "-Wno-gc", "-Ginterp"], ["p.as"]), wd, {}, 300)
+            r1, forced, allocs = run_with_fd3(aldor.aldor_cmd(tc, "aldor", ["-Q1", "-Ginterp"], ["p.as"]), wd, {"ALDOR_VERIF_GC": sched}, 900, nofile=NOFILE)
+    l0, c0 = outcome(r0)
+    l1, c1 = outcome(r1)
+    nt = forced >= 2 and n >= 50000
+    ev.case(key, nt, sample=dict(case, collections=forced, allocations=allocs) if nt and len(ev.samples) < 2 else None, classes=["scale_" + shape, "scale_route_" + route])
+    ev.extra["forced_collections"] = ev.extra.get("forced_collections", 0) + forced
+    if r0.cpu_hit or r1.cpu_hit:
+        ev.inconclusive += 1
+        return None, nt
+    if l0 != want or c0 != "ok":
+        return Fail({"kind": "scale-reference-wrong", "route": route, "shape": shape, "long": "yes" if n > 30000 else "no",
+                     "what": "%s chain of %d without collection on route %s: %s %r, expected %r" % (shape, n, route, c0, l0, want)}, case), nt
+    if l1 != want or c1 != "ok":
+        return Fail({"kind": "gc-changes-behaviour", "route": route, "shape": shape, "long": "yes" if n > 30000 else "no",
+                     "what": "%s chain of %d cells, route %s, schedule %s (%d collections): exit %s, output %r; without collection: ok %r; %s" % (
+                         shape, n, route, sched, forced, c1, l1, want, (r1.err.decode("latin-1")[-120:] + r1.text()[-120:]).replace("\n", " | "))}, case), nt
+    return None, nt
+
+
+def _scale_worker(args):
+    tc, job = args
+    ev = Ev()
+    f, _ = check_scale(tc, *job, ev)
+    return result(ev, [f] if f else [])
+
+
+def scale_jobs(quick, seed):
+    import random
+    rnd = random.Random(seed)
+    jobs = []
+    for shape in ("list", "rec-last", "rec-first"):
+        sizes = [1000, 60000, 150000, 300000] if shape != "rec-first" or not K42_KNOWN else [1000, 8000, 20000]
+        for n in sizes:
+            for k in ([100003] if quick else [20011, 100003, 500009]):
+                jobs.append((shape, n + rnd.randrange(0, 97), 60000 + rnd.randrange(0, 1000), "c", k))
+        jobs.append((shape, sizes[-2] + rnd.randrange(0, 97), 20000, "interp", 150001))
+    return jobs
 
 
 def _worker(args):
@@ -103,10 +187,20 @@ def _worker(args):
 
 def run(ctx):
     n = ctx.n(14, 250)
+    if K42_KNOWN:
+        ctx.ev.excluded_known["C09-K42-marker-recursion"] += 1      # rec-first chains stay below 30000 cells (the class is replayed from regress/)
+    ctx.pmap(_scale_worker, [(ctx.tc, j) for j in scale_jobs(ctx.quick, ctx.seed)])
+    if ctx.fails:
+        return
     ctx.pmap(_worker, [(ctx.tc, ctx.seed, i, n) for i in range(16)])
 
 
 def replay(ctx, case):
+    if "scale" in case:
+        f, _ = check_scale(ctx.tc, case["scale"], case["n"], case["m"], case["route"], case["k"], Ev())
+        if f is not None:
+            f.replay = case
+        return f
     f, _ = check(ctx.tc, case["src"], case["route"], case["k"], case["j"], Ev(), "replay")
     if f is not None:
         f.replay = case
